@@ -48,47 +48,108 @@ theorem finiteFloatsMembers_of_noFloatm : ∀ kvs : List (Bytes × JV), Spec.WF.
     exact ⟨finiteFloats_of_noFloat x h.1, finiteFloatsMembers_of_noFloatm kvs h.2⟩
 end
 
+/-- `f64::is_finite` of the serializer model and of the IEEE specification are the same test (as `ParsedFinite.finite64_eq_isFinite`) -/
+theorem finite64_isFinite (b : UInt64) : Spec.Program.finite64 b = Spec.Ieee.F64.isFinite b := by
+  have h : ((b >>> 52) &&& 0x7ff).toNat = Spec.Ieee.F64.expField b := by
+    rw [UInt64.toNat_and, UInt64.toNat_shiftRight]
+    show b.toNat >>> 52 &&& 2 ^ 11 - 1 = b.toNat / 2 ^ 52 % 2 ^ 11
+    rw [Nat.and_two_pow_sub_one_eq_mod, Nat.shiftRight_eq_div_pow]
+  unfold Spec.Program.finite64 Spec.Ieee.F64.isFinite
+  rw [← h, Bool.eq_iff_iff, bne_iff_ne, bne_iff_ne, ne_eq, ne_eq, ← UInt64.toNat_inj]
+  rfl
+
+mutual
+theorem finiteFloats_of_shapeW : ∀ v : JV, shapeW v = true → FromValue.finiteFloats v = true
+  | .null, _ | .bool _, _ | .str _, _ => rfl
+  | .num n, h => by
+    cases n with
+    | float b => simp only [shapeW, wfNumW] at h; simp only [FromValue.finiteFloats]; rw [← finite64_isFinite]; exact h
+    | _ => rfl
+  | .arr xs, h => by simp only [shapeW, FromValue.finiteFloats] at h ⊢; exact finiteFloatsList_of_shapeWs xs h
+  | .obj kvs, h => by simp only [shapeW, FromValue.finiteFloats] at h ⊢; exact finiteFloatsMembers_of_shapeWm kvs h
+theorem finiteFloatsList_of_shapeWs : ∀ xs : List JV, shapeWs xs = true → FromValue.finiteFloatsList xs = true
+  | [], _ => rfl
+  | x :: xs, h => by
+    simp only [shapeWs, FromValue.finiteFloatsList, Bool.and_eq_true] at h ⊢
+    exact ⟨finiteFloats_of_shapeW x h.1, finiteFloatsList_of_shapeWs xs h.2⟩
+theorem finiteFloatsMembers_of_shapeWm : ∀ kvs : List (Bytes × JV), shapeWm kvs = true →
+    FromValue.finiteFloatsMembers kvs = true
+  | [], _ => rfl
+  | (k, x) :: kvs, h => by
+    simp only [shapeWm, FromValue.finiteFloatsMembers, Bool.and_eq_true] at h ⊢
+    exact ⟨finiteFloats_of_shapeW x h.1.2, finiteFloatsMembers_of_shapeWm kvs h.2⟩
+end
+
+mutual
+/-- the float hypothesis reads the configuration only through `fr` / `ap` -/
+theorem floatsRT_congr (c1 c2 : Spec.Canon.Cfg) (hfr : c1.fr = c2.fr) (hap : c1.ap = c2.ap) (ext : Spec.Program.Ext) :
+    ∀ v : JV, Spec.WF.floatsRT c1 ext v = Spec.WF.floatsRT c2 ext v
+  | .null | .bool _ | .str _ => rfl
+  | .num n => by
+    cases n with
+    | float b => simp only [Spec.WF.floatsRT, Spec.WF.floatRT, Spec.Canon.numOf, Spec.Canon.convert, hfr, hap]
+    | _ => rfl
+  | .arr xs => by simp only [Spec.WF.floatsRT]; exact floatsRTs_congr c1 c2 hfr hap ext xs
+  | .obj kvs => by simp only [Spec.WF.floatsRT]; exact floatsRTm_congr c1 c2 hfr hap ext kvs
+theorem floatsRTs_congr (c1 c2 : Spec.Canon.Cfg) (hfr : c1.fr = c2.fr) (hap : c1.ap = c2.ap) (ext : Spec.Program.Ext) :
+    ∀ xs : List JV, Spec.WF.floatsRTs c1 ext xs = Spec.WF.floatsRTs c2 ext xs
+  | [] => rfl
+  | x :: xs => by simp only [Spec.WF.floatsRTs]; rw [floatsRT_congr c1 c2 hfr hap ext x, floatsRTs_congr c1 c2 hfr hap ext xs]
+theorem floatsRTm_congr (c1 c2 : Spec.Canon.Cfg) (hfr : c1.fr = c2.fr) (hap : c1.ap = c2.ap) (ext : Spec.Program.Ext) :
+    ∀ kvs : List (Bytes × JV), Spec.WF.floatsRTm c1 ext kvs = Spec.WF.floatsRTm c2 ext kvs
+  | [] => rfl
+  | (k, x) :: kvs => by simp only [Spec.WF.floatsRTm]; rw [floatsRT_congr c1 c2 hfr hap ext x, floatsRTm_congr c1 c2 hfr hap ext kvs]
+end
+
 variable (ext : Spec.Program.Ext) (hext : Spec.Program.ExtOK ext)
 include hext
 
 /-- the side conditions of C01's completeness for the tree printed for a `Value`, at stack height `k` -/
 theorem side_image (menv : Machine.Env) (k : Nat) (v : JV)
-    (hs : Spec.WF.shapeOK (SJ.Proofs.CanonM.specCfg menv.cfg) v = true) (hnf : Spec.WF.noFloat v = true)
+    (hs : Spec.WF.shapeOK (SJ.Proofs.CanonM.specCfg menv.cfg) v = true)
+    (hnf : Spec.WF.floatsRT (SJ.Proofs.CanonM.specCfg menv.cfg) ext v = true)
     (hd : menv.cfg.limitOff = true ∨ k + Spec.WF.depthJV v ≤ 127) :
     Side menv k (cstOf (imageOfValue ext v)) := by
   intro _
-  have hc := SJ.Proofs.RoundTrip.canonM_image menv.cfg ext hext v hs (SJ.Proofs.RoundTrip.floatsRT_of_noFloat _ ext v hnf)
+  have hc := SJ.Proofs.RoundTrip.canonM_image menv.cfg ext hext v hs hnf
   refine ⟨?_, SJ.Proofs.RoundTrip.surrogatesPaired_image ext v, fun _ => SJ.Proofs.RoundTrip.stringsUtf8_image ext _ v hs,
     SJ.Proofs.RoundTrip.numbersInRange_of_canonM menv.cfg _ v hc⟩
   rw [SJ.Proofs.RoundTrip.depth_image]
   exact hd
 
-/-- `Value` targets -/
+/-- `Value` targets. `hF`: the floats of the value are read back from `ryu`'s text (`FloatsRoundTrip`) -/
 theorem agree_any {env : Env} (hflt : env.flt = false) (cfg' : FromValue.Cfg) (hap : cfg'.ap = false) (ext' : FromValue.Ext)
     (f t : Nat) (v : JV) (hv : VOK v) (hd : DepthOK env t v)
-    (hs : Spec.WF.shapeOK (SJ.Proofs.CanonM.specCfg env.cfg) v = true) :
+    (hs : Spec.WF.shapeOK (SJ.Proofs.CanonM.specCfg env.cfg) v = true)
+    (hF : Spec.WF.floatsRT (SJ.Proofs.CanonM.specCfg env.cfg) ext v = true) :
     Agree1 (deTyped env (f + 1) t .any) (FromValue.fromValue cfg' ext' .any v) (T ext v) := by
   intro rest pos hsep
   have hfv : FromValue.fromValue cfg' ext' .any v = .ok (.any v) := by
-    simp [FromValue.fromValue, SJ.Proofs.FromValue.rebuild_id cfg' ext' hap v (finiteFloats_of_noFloat v hv.2)]
+    simp [FromValue.fromValue, SJ.Proofs.FromValue.rebuild_id cfg' ext' hap v (finiteFloats_of_shapeW v hv)]
   rw [hfv]
   simp only
   rw [deTyped_any]
   simp only [hflt]
   have hsU : Spec.WF.shapeOK (SJ.Proofs.CanonM.specCfg (unlim (valEnv env)).cfg) v = true := by
     rw [shapeOK_congr (SJ.Proofs.CanonM.specCfg (unlim (valEnv env)).cfg) (SJ.Proofs.CanonM.specCfg env.cfg) rfl rfl v]; exact hs
-  have hside : Side (valEnv env) t (cstOf (imageOfValue ext v)) := side_image ext hext (valEnv env) t v hs hv.2 hd
+  have hFU : Spec.WF.floatsRT (SJ.Proofs.CanonM.specCfg (unlim (valEnv env)).cfg) ext v = true := by
+    rw [floatsRT_congr (SJ.Proofs.CanonM.specCfg (unlim (valEnv env)).cfg) (SJ.Proofs.CanonM.specCfg env.cfg) rfl rfl ext v]; exact hF
+  have hside : Side (valEnv env) t (cstOf (imageOfValue ext v)) := side_image ext hext (valEnv env) t v hs hF hd
   have hsideU : Side (unlim (valEnv env)) 0 (cstOf (imageOfValue ext v)) :=
-    side_image ext hext (unlim (valEnv env)) 0 v hsU hv.2 (.inl rfl)
+    side_image ext hext (unlim (valEnv env)) 0 v hsU hFU (.inl rfl)
   have hfollow : (∃ q, cstOf (imageOfValue ext v) = .num q) → ∀ d r', rest = d :: r' → numCont d = false := by
     intro _ d r' hr
     rcases hsep with rfl | ⟨c, tl, rfl, hc⟩
     · cases hr
     · cases hr
-      rcases hc with rfl | rfl | rfl | rfl <;> decide
-  obtain ⟨val, hres, hm⟩ := machine_complete_pad (valEnv env) t (T ext v) _ (T_derives ext hext v hv.1) hside hsideU rest pos hfollow
-  have hc := SJ.Proofs.RoundTrip.canonM_image (unlim (valEnv env)).cfg ext hext v hsU
-    (SJ.Proofs.RoundTrip.floatsRT_of_noFloat _ ext v hv.2)
+      rcases hc with rfl | rfl | rfl | rfl | hw
+      · decide
+      · decide
+      · decide
+      · decide
+      · rcases isWs_cases hw with rfl | rfl | rfl | rfl <;> decide
+  obtain ⟨val, hres, hm⟩ := machine_complete_pad (valEnv env) t (T ext v) _ (T_derives ext hext v hv) hside hsideU rest pos hfollow
+  have hc := SJ.Proofs.RoundTrip.canonM_image (unlim (valEnv env)).cfg ext hext v hsU hFU
   have := hres.1 rfl
   rw [hc] at this
   cases this
